@@ -17,5 +17,5 @@ PROP = {'title': '`eph fetch` only writes bytes that match the manifest',
                'against a real daemon (byte-identical manifest re-encoding, end-to-end transport fetch). The relay path is exercised through a harness relay front '
                '(CONNECT/OK preamble then the real transport handshake), not through eph-relay-server. A timeout of the CLI is inconclusive, never a violation.',
  'assumptions': ['loopback TCP is available; the fake endpoints stand for arbitrary remote peers', 'an empty streamed payload carries no PAYLOAD-LENGTH and is not asserted to produce a file'],
- 'tiers': {'quick': [script(['{ROOT}/harness/C30_hyp.py', '--cases', '200', '--workers', '6'], name='hyp', label='Hypothesis black-box (eph fetch)', timeout_s=900)],
+ 'tiers': {'quick': [script(['{ROOT}/harness/C30_hyp.py', '--cases', '200', '--workers', '4'], name='hyp', label='Hypothesis black-box (eph fetch)', timeout_s=900)],
            'thorough': [script(['{ROOT}/harness/C30_hyp.py', '--cases', '3000', '--workers', '8'], name='hyp', label='Hypothesis black-box (eph fetch)', timeout_s=3600)]}}
